@@ -8,6 +8,8 @@ require (
 	github.com/kubewharf/kubebrain-client v0.2.1
 	github.com/tikv/client-go/v2 v2.0.1
 	google.golang.org/grpc v1.43.0
+	k8s.io/apimachinery v0.20.4
+	k8s.io/client-go v0.20.2
 	k8s.io/klog/v2 v2.4.0
 )
 
@@ -66,14 +68,13 @@ require (
 	golang.org/x/sys v0.0.0-20220114195835-da31bd327af9 // indirect
 	golang.org/x/text v0.3.6 // indirect
 	golang.org/x/time v0.0.0-20211116232009-f0f3c7e86c11 // indirect
+	google.golang.org/appengine v1.6.6 // indirect
 	google.golang.org/genproto v0.0.0-20210602131652-f16073e35f0c // indirect
 	google.golang.org/protobuf v1.26.0 // indirect
 	gopkg.in/inf.v0 v0.9.1 // indirect
 	gopkg.in/natefinch/lumberjack.v2 v2.0.0 // indirect
 	gopkg.in/yaml.v2 v2.4.0 // indirect
 	k8s.io/api v0.20.4 // indirect
-	k8s.io/apimachinery v0.20.4 // indirect
-	k8s.io/client-go v0.20.2 // indirect
 	k8s.io/klog v0.3.0 // indirect
 	k8s.io/utils v0.0.0-20201110183641-67b214c5f920 // indirect
 	sigs.k8s.io/yaml v1.2.0 // indirect
